@@ -141,11 +141,16 @@ def check(pid, tier, seed, only=None, procs=None):
     if errors:
         for e in errors:
             print('HARNESS-ERROR property=%s %s' % (pid, e))
+        # jobs that did finish may still hold real violations (e.g. the code under test grows without bound in one facet and is plainly wrong
+        # in another): report those; without any, the run is inconclusive (exit 2), never a violation
+        if results and any(r.get('failures') for r in results):
+            rc = report(pid, tier, seed, mod, results, time.time() - t0, partial=True)
+            return 1 if rc == 1 else 2
         return 2
     return report(pid, tier, seed, mod, results, time.time() - t0)
 
 
-def report(pid, tier, seed, mod, results, wall):
+def report(pid, tier, seed, mod, results, wall, partial=False):
     open_keys, _fixed = parse_findings(os.path.join(HERE, 'known_findings.txt'))
     per_facet = {}
     nt_all = set()
@@ -222,7 +227,7 @@ def report(pid, tier, seed, mod, results, wall):
             'exhaustive': bool(per_facet) and all(pf['exhaustive'] for pf in per_facet.values()),
             'facets': facets_out,
             'known_finding_hits': {k: v[0] for k, v in known_hits.items()},
-            'inconclusive': sorted(set(truncated)),
+            'inconclusive': sorted(set(truncated)) + (['some jobs did not finish (worker process died); results of the finished jobs only'] if partial else []),
         },
         'assumptions': getattr(mod, 'ASSUMPTIONS', []),
         'wall_s': round(wall, 2),
